@@ -358,7 +358,7 @@ fn grid_for(law: &str, which: usize) -> &'static [f64] {
         ("Normal", 1) => &[0.0, 1e-3, 0.5, 1.0, 20.0, 1000.0],
         ("Gamma", 0) | ("Beta", _) => &[0.05, 0.2, 1.0 / 3.0, 0.5, 0.9, 1.0, 1.5, 2.0, 7.3, 40.0],
         ("Gamma", 1) => &[1e-3, 0.5, 1.0, 4.0, 1e3],
-        ("ChiSquared", _) => &[1.0, 2.0, 3.0, 5.0, 50.0, 200.0],
+        ("ChiSquared", _) => &[1.0, 2.0, 3.0, 5.0, 50.0, 200.0, 4294967302.0, 1e12],
         ("T", _) => &[0.5, 1.0, 1.5, 2.0, 3.0, 30.0, 200.0],
         ("Pareto", _) => &[0.5, 1.0, 2.0, 3.5, 1e-3, 1e3],
         ("Gumbel", 1) => &[1e-3, 0.5, 1.0, 7.0, 1e3],
